@@ -29,7 +29,7 @@ Transcribed (snapshot ef0888e + the `fix:` commits listed in findings/C06.txt):
   `alertState.BufferedBatch`) and eval (`evalCountAddNodeB`), `groupByStream` (`GroupByNode.Point`), and `runPipe`
   (two nodes in a row; the window's batch travels under its batch-edge id, `onBatchEdge`).
 `whereNestedNode` / `evalNestedNode`: where / eval whose lambda uses a lambda VAR (nested `EvalLambdaNode`; its
-  ExecutionState is per `CopyReset` copy = per group since `fix:` dcda92d; `whereNestedNodeShared` /
+  ExecutionState is per `CopyReset` copy = per group since `fix:` 8ed14ac; `whereNestedNodeShared` /
   `evalNestedNodeShared` = one per node, the code before the fix); `alert().crit(lambda: nl)` with a nested lambda is
   `alertNode` (it was exactly `alertNodeShared`).
 Abstracted: everything about a message except group id / time / the field `v` / name / tags; errors are
@@ -89,7 +89,7 @@ def uniqueAfter (last : String) : List String → List String
   | [] => []
   | s :: rest => if last == s then uniqueAfter last rest else s :: uniqueAfter s rest
 
-/-- `uniqueSorted`: the repeated elements of a sorted list dropped (`fix:` a050cea). -/
+/-- `uniqueSorted`: the repeated elements of a sorted list dropped (`fix:` 6ba92e9). -/
 def uniqueSorted : List String → List String
   | [] => []
   | s :: rest => s :: uniqueAfter s rest
@@ -99,7 +99,7 @@ kept once, the excluded ones dropped. -/
 def determineTagNames (dims excluded : List String) : List String :=
   filterExcluded (uniqueSorted (sortStrings dims)) excluded
 
-/-- `determineTagNames` before `fix:` a050cea: sorted, repetitions kept (counterexample theorem only). -/
+/-- `determineTagNames` before `fix:` 6ba92e9: sorted, repetitions kept (counterexample theorem only). -/
 def determineTagNamesOld (dims excluded : List String) : List String :=
   filterExcluded (sortStrings dims) excluded
 
@@ -462,7 +462,7 @@ def alertNode (pr : CountPred) : Node Unit (Nat × Nat) Pt Out :=
 
 /-! ### a lambda var used as a NESTED lambda node (`tick/stateful/eval_lambda_node.go`)
 
-`EvalLambdaNode.state` belongs to the lambda node evaluator. Since `fix:` dcda92d `Expression.CopyReset` — called in
+`EvalLambdaNode.state` belongs to the lambda node evaluator. Since `fix:` 8ed14ac `Expression.CopyReset` — called in
 every `NewGroup` — copies the lambda nodes of the expression (`copyResetNodeEvaluator`), each copy with a fresh state:
 the stateful functions INSIDE the nested lambda and those of the enclosing expression are both per group (`σ` = the two
 counters). Before the fix the node evaluator tree, lambda nodes and their state included, was shared by all copies: one
@@ -483,7 +483,7 @@ def evalNestedNode : Node Unit (Nat × Nat) Pt Out :=
   pureNode (0, 0) (fun s p =>
     ((s.1 + 1, s.2 + 1), [{ key := p.key, time := p.time, proj := s!"i:{(s.1 + 1) * 1000 + (s.2 + 1)}" }]))
 
-/-- `whereNestedNode` as the code was before dcda92d: the nested lambda's counter is node-wide (`Γ = Nat`). -/
+/-- `whereNestedNode` as the code was before 8ed14ac: the nested lambda's counter is node-wide (`Γ = Nat`). -/
 def whereNestedNodeShared (m r : Nat) : Node Nat Nat Pt Out :=
   { newGroup := fun γ _ _ => (γ, 0),
     recv := fun γ s msg =>
@@ -494,7 +494,7 @@ def whereNestedNodeShared (m r : Nat) : Node Nat Nat Pt Out :=
         else (γ + 1, (s, []))
       | _ => (γ, (s, [])) }
 
-/-- `evalNestedNode` as the code was before dcda92d. -/
+/-- `evalNestedNode` as the code was before 8ed14ac. -/
 def evalNestedNodeShared : Node Nat Nat Pt Out :=
   { newGroup := fun γ _ _ => (γ, 0),
     recv := fun γ s msg =>
